@@ -141,6 +141,24 @@ converted to the Molden conventions *in the object's shell order*. -/
 def moldenDump (cv1 cvM : Cv) (shells : List Shell) (coeffs : List Int) : List Shell × List Int :=
   (sortByCenter shells, convert cv1 cvM shells coeffs)
 
+/-- the coefficient vector cut into the blocks of the shells -/
+def blocks (cv : Cv) : List Shell → List Int → List (Shell × List Int)
+  | [], _ => []
+  | s :: ss, coeffs => (s, coeffs.take (cv s.key).length) :: blocks cv ss (coeffs.drop (cv s.key).length)
+
+def insertPair (p : Shell × List Int) : List (Shell × List Int) → List (Shell × List Int)
+  | [] => [p]
+  | t :: ts => if p.1.center ≤ t.1.center then p :: t :: ts else t :: insertPair p ts
+
+def sortPairs : List (Shell × List Int) → List (Shell × List Int)
+  | [] => []
+  | p :: ps => insertPair p (sortPairs ps)
+
+/-- the repaired Molden writer: the coefficient blocks follow the sorted shells -/
+def moldenDumpSorted (cv1 cvM : Cv) (shells : List Shell) (coeffs : List Int) : List Shell × List Int :=
+  let ps := sortPairs (blocks cvM shells (convert cv1 cvM shells coeffs))
+  (ps.map (·.1), ps.flatMap (·.2))
+
 /-- the Molekel writer writes `$$` whenever the centre differs from the previous shell's
 (`iatom_last = 0` initially); the reader starts at centre 0 and adds one per `$$`. -/
 def mklCentersFrom (last seen : Nat) : List Nat → List Nat
